@@ -7,12 +7,27 @@
 //	        and the Required default.
 //	e2e   : a runtime-built struct carrying a generated tag goes through a real app.Run.
 //
+// again : every parse must be independent of earlier parses of the same tag text and of what callers did with the
+//
+//	earlier results.  again = 1 | 2: the tag is first parsed in the case's own way (parse / scan), the
+//	observation is kept as "first", then the driver scribbles over everything reachable from that result
+//	(every item of every value slice overwritten in place through ForEach and Find, slices sorted and
+//	appended to, the public Property.SetArg / AddArg called with junk on every existing and on new names,
+//	Required=false among them) and the SAME tag text is parsed once more into a fresh Property, which is the
+//	case's observation.  again = 2 does the first parse in another context (another Field object / property
+//	type / tag key for direct parses; another struct type, field name, component name and registry for
+//	scans) and scribbles over one more direct parse of the raw text.  For app.Run cases again = 1 scribbles
+//	over a direct parse of the text before the start; again = 2 additionally starts ANOTHER App first whose
+//	components carry the same tag and in which an application-defined post-processor scribbles over the
+//	arguments of every property it is shown.
+//
 // Byte strings travel as hex (JSON cannot carry arbitrary bytes). Panics are outcomes.
 package main
 
 import (
 	"encoding/hex"
 	"reflect"
+	"sort"
 	"strconv"
 
 	"github.com/go-kid/ioc/app"
@@ -36,6 +51,7 @@ type Case struct {
 	Tag      string  `json:"tag"`  // hex
 	Probes   []Probe `json:"probes"`
 	Provider bool    `json:"provider"` // e2e wire: a component of the field's type is registered
+	Again    int     `json:"again"`    // 0 | 1 | 2: parse, scribble over the result, parse the same text again
 }
 
 type Arg struct {
@@ -66,6 +82,8 @@ type Out struct {
 	Failed   bool   `json:"failed"`   // app.Run returned an error
 	FieldNil bool   `json:"fieldnil"` // pointer field left nil
 	FieldStr string `json:"fieldstr"` // hex of a string field's value
+	// again (parse / scan): the observation of the parse BEFORE the driver scribbled over its result
+	First *Out `json:"first,omitempty"`
 }
 
 func unhex(s string) string {
@@ -127,6 +145,54 @@ func observe(p *component_definition.Property, c Case, out *Out) {
 	}
 }
 
+// scribble overwrites everything a caller can reach from a parsed property
+func scribble(p *component_definition.Property) {
+	var names []component_definition.ArgType
+	p.Args().ForEach(func(t component_definition.ArgType, args []string) {
+		names = append(names, t)
+		for i := range args {
+			args[i] = "\x01scribbled" + strconv.Itoa(i)
+		}
+		_ = append(args, "appended") // lands in spare capacity, if there is any
+		sort.Sort(sort.Reverse(sort.StringSlice(args)))
+	})
+	for _, n := range names {
+		if vals, ok := p.Args().Find(n); ok {
+			for i := range vals {
+				vals[i] = "~" + vals[i]
+			}
+		}
+	}
+	for _, n := range names {
+		p.SetArg(n, "junk-set")
+		p.AddArg(n, "junk-add", "false")
+	}
+	p.SetArg(component_definition.ArgRequired, "false")
+	p.AddArg(component_definition.ArgQualifier, "junk-qualifier")
+	p.SetArg("zzNew", "1", "2")
+	p.AddArg("mapper", "junkmapper")
+	p.AddArg("a", "junk-a")
+	p.SetArg("x")
+}
+
+// scribbler: an application-defined post-processor that rewrites the arguments of every property it is shown
+type scribbler struct {
+	processors.DefaultInstantiationAwareComponentPostProcessor
+}
+
+func (s *scribbler) PostProcessAfterInstantiation(component any, componentName string) (bool, error) {
+	return true, nil
+}
+
+func (s *scribbler) PostProcessProperties(properties []*component_definition.Property, component any, componentName string) ([]*component_definition.Property, error) {
+	for _, p := range properties {
+		if _, own := component.(*app.App); !own {
+			scribble(p)
+		}
+	}
+	return nil, nil
+}
+
 type Dep struct{ X int }
 type Missing struct{ X int }
 
@@ -138,31 +204,77 @@ func structWith(key, tagVal string, ft reflect.Type) reflect.Type {
 	return reflect.StructOf([]reflect.StructField{{Name: "F", Type: ft, Tag: tag}})
 }
 
+// the same tag on another struct type: another field name behind an untagged field
+func otherStructWith(key, tagVal string, ft reflect.Type) reflect.Type {
+	tag := reflect.StructTag(key + ":" + strconv.Quote(tagVal))
+	return reflect.StructOf([]reflect.StructField{{Name: "A", Type: reflect.TypeOf(0)}, {Name: "G", Type: ft, Tag: tag}})
+}
+
+func directParse(tagVal string, other bool) *component_definition.Property {
+	if other {
+		return component_definition.NewProperty(&component_definition.Field{StructField: reflect.StructField{Name: "Other"}},
+			component_definition.PropertyTypeConfiguration, "value", tagVal)
+	}
+	return component_definition.NewProperty(&component_definition.Field{}, component_definition.PropertyTypeComponent, "wire", tagVal)
+}
+
+func scanParse(key, tagVal string, other bool) []*component_definition.Property {
+	var proc container.InstantiationAwareComponentPostProcessor
+	ft := reflect.TypeOf("")
+	if key == "wire" {
+		proc = processors.NewDependencyAwarePostProcessors()
+		ft = reflect.TypeOf((*Dep)(nil))
+	} else {
+		proc = processors.NewValueAwarePostProcessors()
+	}
+	st, name := structWith(key, tagVal, ft), "c"
+	if other {
+		st, name = otherStructWith(key, tagVal, ft), "d"
+	}
+	comp := reflect.New(st).Interface()
+	reg := support.DefaultDefinitionRegistry()
+	err := proc.(container.DefinitionRegistryPostProcessor).PostProcessDefinitionRegistry(reg, comp, name)
+	if err != nil {
+		panic("scan error: " + err.Error())
+	}
+	return reg.GetMetaByName(name).GetAllProperties()
+}
+
 func runCase(c Case) (out Out) {
 	out = Out{ID: c.ID, Args: []Arg{}, Probes: []ProbeOut{}}
 	tagVal := unhex(c.Tag)
 	out.Panic = hx.Guard(func() {
 		switch c.Kind {
 		case "parse":
-			p := component_definition.NewProperty(&component_definition.Field{}, component_definition.PropertyTypeComponent, "wire", tagVal)
+			if c.Again > 0 {
+				p1 := directParse(tagVal, c.Again == 2)
+				first := Out{ID: c.ID, NProps: 1}
+				observe(p1, c, &first)
+				out.First = &first
+				scribble(p1)
+				if c.Again == 2 {
+					scribble(directParse(tagVal, false))
+				}
+			}
+			p := directParse(tagVal, false)
 			out.NProps = 1
 			observe(p, c, &out)
 		case "scan":
-			var proc container.InstantiationAwareComponentPostProcessor
-			ft := reflect.TypeOf("")
-			if c.Key == "wire" {
-				proc = processors.NewDependencyAwarePostProcessors()
-				ft = reflect.TypeOf((*Dep)(nil))
-			} else {
-				proc = processors.NewValueAwarePostProcessors()
+			if c.Again > 0 {
+				props1 := scanParse(c.Key, tagVal, c.Again == 2)
+				first := Out{ID: c.ID, NProps: len(props1), Args: []Arg{}, Probes: []ProbeOut{}}
+				if len(props1) == 1 {
+					observe(props1[0], c, &first)
+				}
+				out.First = &first
+				for _, p1 := range props1 {
+					scribble(p1)
+				}
+				if c.Again == 2 {
+					scribble(directParse(tagVal, true))
+				}
 			}
-			comp := reflect.New(structWith(c.Key, tagVal, ft)).Interface()
-			reg := support.DefaultDefinitionRegistry()
-			err := proc.(container.DefinitionRegistryPostProcessor).PostProcessDefinitionRegistry(reg, comp, "c")
-			if err != nil {
-				panic("scan error: " + err.Error())
-			}
-			props := reg.GetMetaByName("c").GetAllProperties()
+			props := scanParse(c.Key, tagVal, false)
 			out.NProps = len(props)
 			if len(props) == 1 {
 				observe(props[0], c, &out)
@@ -177,6 +289,20 @@ func runCase(c Case) (out Out) {
 				} else {
 					ft = reflect.TypeOf((*Missing)(nil))
 				}
+			}
+			if c.Again > 0 {
+				scribble(directParse(tagVal, c.Again == 2))
+			}
+			if c.Again == 2 {
+				// another App of the same process, started earlier, whose components carry the same tag text
+				pre := []any{&scribbler{}, reflect.New(otherStructWith(c.Key, tagVal, ft)).Interface(),
+					reflect.New(structWith(c.Key, tagVal, ft)).Interface()}
+				if c.Provider {
+					pre = append(pre, &Dep{X: 1})
+				}
+				_ = hx.Guard(func() {
+					_ = app.NewApp().Run(app.LogLevel(syslog.LvFatal), app.SetConfigLoader(), app.SetComponents(pre...))
+				})
 			}
 			holder := reflect.New(structWith(c.Key, tagVal, ft))
 			comps = append(comps, holder.Interface())
